@@ -21,14 +21,15 @@ LEVEL = "fault_enumeration"
 RULE = ("real cmd_send.send()/cmd_receive.receive() against the real server, transit over SimNet "
         "(direct or through the real relay); payloads: text (unicode, quotes, control/bidi chars, "
         "newlines), files of 0,1,16383,16384,16385,32767..65536,100000,<=1MB random bytes, directory "
-        "trees with empty dirs and odd names; random TCP chunking; faults swept over the transit "
+        "trees with empty dirs and odd names; in 30% of the file cases a stale <name>.tmp (shorter or longer than "
+        "the file) from an earlier interrupted attempt lies in the receiver's directory; random TCP chunking; faults swept over the transit "
         "stream: cut/flip of the data direction at byte k (length prefix, nonce, ciphertext, record "
         "boundaries +-1, last byte, fractions), cut/flip inside the ack; a scripted receiver that lies "
         "in its ack (wrong hash, not ok, garbage, none). Non-trivial = transit was established (or text "
         "delivered); distinct = (payload kind, size, fault, position, path).")
 ASSUMPTIONS = ["file modes/timestamps are not compared", "a leftover <dest>.tmp after a failure is allowed",
                "sizes <= ~1 MB, trees <= 12 entries"]
-FLOORS = {"quick": {"clean_success": 60, "data_faults_fired": 50, "ack_faults_fired": 10, "liar_cases": 20, "grow_cases": 15},
+FLOORS = {"quick": {"clean_success": 60, "data_faults_fired": 50, "ack_faults_fired": 10, "liar_cases": 20, "grow_cases": 15, "stale_tmp_cases": 30},
           "thorough": {"clean_success": 2000, "data_faults_fired": 4000, "ack_faults_fired": 250, "liar_cases": 800}}
 APPID = "lothar.com/wormhole/text-or-file-xfer"
 TEXTS = ["hello", "", "it's \"quoted\"", "line1\nline2\r\n\ttab", "\x1b[31mred\x1b[0m \x07bell", "‮evil‬ bidi",
@@ -173,6 +174,11 @@ def _run(spec, world, rng, r, base):
                 f.write(rng.randbytes(n))
             desc["size"] = n
         sa = mkargs(what=what, code=code, transit_helper=helper, listen=listen)
+        if payload == "file" and rng.random() < 0.3:
+            # what an earlier, interrupted attempt leaves behind in the receiver's directory
+            with open(os.path.join(rd, desc["name"] + ".tmp"), "wb") as f:
+                f.write(rng.randbytes(rng.choice([1, desc["size"] + 1, desc["size"] + 70000, 200000])))
+            desc["stale_tmp"] = True
     sa.cwd = sd
     ra = mkargs(code=code, transit_helper=helper, listen=listen)
     ra.cwd = rd
@@ -337,7 +343,7 @@ def _run(spec, world, rng, r, base):
     return {"violations": viol, "nontrivial": nontrivial,
             "counters": {"clean_success": int(clean and so == "success" and ro == "success"),
                          "data_faults_fired": int(kind == "datafault" and fired), "ack_faults_fired": int(kind == "ackfault" and fired),
-                         "liar_cases": int(kind == "liar" and bool(liar_log)), "grow_cases": int(kind == "grow" and bool(grown)), "clean_failed": int(bool(clean_failure)), "hangs": int(bool(hang)), "faults_not_reached": int(kind in ("datafault", "ackfault") and not fired),
+                         "liar_cases": int(kind == "liar" and bool(liar_log)), "grow_cases": int(kind == "grow" and bool(grown)), "stale_tmp_cases": int(bool(desc.get("stale_tmp"))), "clean_failed": int(bool(clean_failure)), "hangs": int(bool(hang)), "faults_not_reached": int(kind in ("datafault", "ackfault") and not fired),
                          "payload_" + payload: 1, "via_relay": int(any(l.tags.get("port") == 4001 for l in r.links)),
                          "steps": world.step, "bytes_payload": desc.get("size", 0)},
             "sets": {"clean_transfers_that_failed": [clean_failure] if clean_failure else [],
